@@ -310,8 +310,21 @@ var encodingReplacer = strings.NewReplacer(
 
 // normalizeEncodingHeader handles special cases for encoding headers.
 func normalizeEncodingHeader(value string) string {
-	value = encodingReplacer.Replace(value)
-	return normalizeOrderInsensitive(value)
+	// The aliases are names of codings: they are replaced where a list member is one,
+	// not wherever their text occurs ("lx-gzip" is not "lgzip").
+	parts := slices.Collect(TrimmedCSVSeq(value))
+	for i, part := range parts {
+		coding, params, hasParams := strings.Cut(part, ";")
+		trimmed := strings.TrimSpace(coding)
+		if alias := encodingReplacer.Replace(trimmed); alias != trimmed && (trimmed == "x-gzip" || trimmed == "x-compress") {
+			if hasParams {
+				alias += ";" + params
+			}
+			parts[i] = alias
+		}
+	}
+	slices.Sort(parts)
+	return strings.Join(parts, ",")
 }
 
 // VaryHeaderNormalizer describes the interface implemented by types that can
